@@ -55,6 +55,16 @@ func slotOf(c Cmd, i int) phase0.Slot {
 	return phase0.Slot(100 + i)
 }
 
+// gated: the request can be held by the harness: by its account inside the read lock (lookup, auction
+// with an account), or by the relay outside it (fwd, reg)
+func gated(c Cmd) bool {
+	switch c.Op {
+	case "fwd", "reg":
+		return c.Gate
+	}
+	return c.Gate && !accountless(c)
+}
+
 func accountless(c Cmd) bool {
 	switch c.Op {
 	case "bid", "fwd", "unblind":
@@ -96,7 +106,13 @@ func (r *runner) accountlessRequest(ctx context.Context, sc *script, c Cmd, numb
 		// a parent hash of its own: nothing is cached for it, so the request runs the auction itself
 		sc.bidCalled, sc.bidFee = false, nil
 		parent := phase0.Hash32{byte(c.V), 0xb1, byte(number), byte(number >> 8), byte(number >> 16)}
-		_, err := r.svc.BuilderBid(ctx, slotOf(c, i), parent, pubkey)
+		slot := slotOf(c, i)
+		if c.Key > 0 {
+			// the same bid as every other request with this key (and as every repetition of this one)
+			parent = phase0.Hash32{byte(c.V), 0xb2, byte(c.Key), byte(c.Key >> 8), byte(c.Key >> 16), byte(c.Key >> 24)}
+			slot = slotOf(c, 0)
+		}
+		_, err := r.svc.BuilderBid(ctx, slot, parent, pubkey)
 		switch {
 		case err != nil:
 			return "RErr"
